@@ -138,7 +138,13 @@ MockClauses(stim, cli) ==
         <<"C05.FlagWithoutEncodingIsInternal", (~refusedEnc /\ hc = -1 /\ enc = "" /\ m.status = 200 /\ MockFlagged(m) /\ m.first_flagged) => (~cli.ok /\ cli.st.code = 13)>>,
         <<"C04.TrailerStatusIsReported", (~refusedEnc /\ hc = -1 /\ m.status = 200 /\ MockFramesOK(m) /\ tc > 0) => (~cli.ok /\ cli.st.code = tc)>>,
         <<"C04.HttpStatusIsClassified", (~refusedEnc /\ hc = -1 /\ tc = -1 /\ m.status # 200 /\ MockBody(m) = <<>>) => (~cli.ok /\ cli.st.code = HttpToGrpc(m.status))>>,
-        <<"C02.SuccessNeedsOkStatus", cli.ok => (~refusedEnc /\ hc \in {-1, 0} /\ tc \in {-1, 0})>> >>
+        \* (a response with an OK grpc-status in its headers AND a status in trailers contradicts itself: the text is silent, either reading is accepted)
+        <<"C02.SuccessNeedsOkStatus", cli.ok => (~refusedEnc /\ hc \in {-1, 0} /\ (hc = -1 => tc \in {-1, 0}))>>,
+        <<"C04.NonOkHttpWithoutGrpcStatusIsAnError", (~refusedEnc /\ hc = -1 /\ tc = -1 /\ m.status # 200) => ~cli.ok>>,
+        <<"C02.StreamMessagesBeforeStatus", (stim.shape = "sstream" /\ ~refusedEnc /\ hc = -1 /\ m.status = 200 /\ MockFramesOK(m))
+                                             => cli.msgs = [i \in 1..Len(ParseFrames(MockBody(m)).frames) |-> ParseFrames(MockBody(m)).frames[i].payload]>>,
+        <<"C02.OkTrailersAfterMessagesIsSuccess", (~refusedEnc /\ hc = -1 /\ m.status = 200 /\ tc = 0 /\ MockFramesOK(m)
+                                                   /\ (stim.shape = "sstream" \/ Len(ParseFrames(MockBody(m)).frames) = 1)) => cli.ok>> >>
 
 (* ---- what the client API must yield (C02, first sentence; C08) *)
 StatusEquals(st, end) == st.some /\ st.code = end.code /\ st.msg = end.msg /\ st.details = end.details
